@@ -110,6 +110,12 @@ def part_a(ctx, res):
                 b = tree.extend(parent, n_tx=0)
                 for _ in range(rng.randrange(0, 3)):
                     b = tree.extend(b.hash(), n_tx=0)
+        # a branch none of whose locator entries lies on the main chain: it leaves the main chain at height 1-3 and is
+        # 10-12 blocks long (dense part entirely on the branch, first sparse entry below genesis)
+        f_ = rng.randrange(1, 4)
+        b = tree.extend(main[f_].hash(), n_tx=0)
+        for _ in range(rng.randrange(9, 15 - f_ - 1)):
+            b = tree.extend(b.hash(), n_tx=0)
         rn = node.RealNode(tree.cs, tree.blocks)
         rn.add_peer(active=True)
         rq = node.RealNode(tree.cs, tree.blocks)          # the requester of the follow-up loop
@@ -145,6 +151,16 @@ def part_a(ctx, res):
                     ids = r[3:].split(",")
                     if len(ids) > batch:
                         res.violations.append({"kind": "inventory larger than the batch size"})
+                    # (M) what is listed can be used: the first listed block's parent is a block of the requester's chain
+                    # (otherwise the requester receives an orphan it drops, and never gets the blocks in between)
+                    first = [b_ for b_ in tree.blocks if b_.hash()[:8].hex() == ids[0]]
+                    req_ids = {b_.hash() for b_ in v.by_height_at_head().values()}
+                    if first and first[0].previous_block_hash not in req_ids:
+                        res.violations.append({"kind": "the inventory sent for an honest locator starts with a block whose parent the "
+                                                       "requester does not have (height %d)" % first[0].height,
+                                               "server_height": chain.view(cs, head).head().height,
+                                               "requester_height": v.head().height,
+                                               "locator": [x.hex() for x in loc]})
                 # the follow-up loop (real handlers on both sides) against the model's `walk`
                 srv_view = chain.view(cs, head)
                 fuel = srv_view.head().height + 2
